@@ -17,11 +17,13 @@ SHARDS = {"quick": 12, "thorough": 16}
 WATCHDOG = {"quick": 1500, "thorough": 3300}
 REQUIRED_CLASSES = {t: ["analyzer:Elementary", "analyzer:Probit", "analyzer:MaxLikeInf", "analyzer:MaxLikeFull", "relation:load_scaling",
                         "relation:cycle_scaling", "relation:row_permutation", "exact_basquin_data", "data:runouts_on_several_levels",
-                        "data:fracture_below_highest_runout", "data:pure_fracture_level_below_highest_runout", "relation:scaling_by_orders_of_magnitude", "data:no_runouts"]
+                        "data:fracture_below_highest_runout", "data:pure_fracture_level_below_highest_runout", "relation:scaling_by_orders_of_magnitude", "data:no_runouts",
+                        "history:analysis_repeated_after_other_series", "history:trigger_series_with_one_mixed_level"]
                     for t in ("quick", "thorough")}
 REQUIRED_MONITORS = ["load_scaling:SD*c,rest_unchanged", "cycle_scaling:ND*c,rest_unchanged", "row_permutation:identical",
                      "exact_data:k_1_exact", "exact_data:TN==TS==1", "zones_partition_at_transition", "loglik(MaxLike)>=loglik(Elementary)", "likelihood_equivariant",
-                     "row_permutation:data_properties_identical"]
+                     "row_permutation:data_properties_identical", "same_data_same_answer_whatever_came_before",
+                     "fixed_parameters_of_the_caller_unchanged"]
 RULE = ("seeded synthetic fatigue test series (Basquin curve + log-normal scatter; 3..5 finite-life levels, 2..4 levels around the "
         "endurance limit with mixed fractures and run-outs, run-out limit 1e7) analysed by Elementary, Probit, MaxLikeInf and "
         "MaxLikeFull; each data set is re-analysed after scaling the loads, scaling the cycles (dyadic factors) and permuting the "
@@ -32,7 +34,7 @@ ASSUMPTIONS = ["Nelder-Mead stops on absolute xatol = fatol = 1e-4: parameters o
                "their own (flat likelihood directions), hence the likelihood-space alternative",
                "generated data are admissible for every analyzer run on them"]
 
-COUNTS = {"quick": {"reg": 240, "inf": 36, "full": 12}, "thorough": {"reg": 8000, "inf": 800, "full": 240}}
+COUNTS = {"quick": {"reg": 240, "inf": 36, "full": 12, "hist": 12}, "thorough": {"reg": 8000, "inf": 800, "full": 240, "hist": 160}}
 
 
 def setup(ctx):
@@ -54,7 +56,8 @@ def finish(ctx):
 def generate(ctx):
     rng = ctx.rng
     cnt = COUNTS[ctx.tier]
-    plan = [("reg", ctx.scaled(cnt["reg"])), ("inf", ctx.scaled(cnt["inf"])), ("full", max(1, cnt["full"] // ctx.nshards))]
+    plan = [("reg", ctx.scaled(cnt["reg"])), ("inf", ctx.scaled(cnt["inf"])), ("full", max(1, cnt["full"] // ctx.nshards)),
+            ("hist", max(1, cnt["hist"] // ctx.nshards))]
     for group, n in plan:
         for i in range(n):
             yield {"group": group, "rseed": int(rng.integers(0, 2**31)), "exact": bool((group == "reg" and i % 5 == 0) or (group == "inf" and i % 6 == 1) or (group == "full" and i % 4 == 1)),
@@ -136,9 +139,66 @@ def _same(a, b, rtol, keys=None):
     return True, None
 
 
+def _one_mixed_level(df):
+    """The same series with run-outs only below its highest mixed level (MaxLikeFull then fixes TS from the pearl chain)."""
+    ro = df[~df.fracture]
+    top = float(ro.load.max())
+    out = df.copy()
+    low = (out.load < top) & out.load.isin(ro.load.unique())
+    out.loc[low, "fracture"] = False
+    out.loc[low, "cycles"] = float(ro.cycles.max())
+    return out
+
+
+def _history(case, ctx, rng):
+    """What an analysis returns depends on its data only: not on the analyses made before it in the process, and the caller's
+    dictionary of fixed parameters is read, not written."""
+    import pylife.materialdata.woehler as W
+    ctx.tag("history:analysis_repeated_after_other_series")
+    B, _ = dataset(rng)
+    A = _one_mixed_level(dataset(rng)[0])
+    n_mixed = len(A.copy().fatigue_data.mixed_loads)
+    ctx.nontrivial(n_mixed < 2)
+    if n_mixed < 2:
+        ctx.tag("history:trigger_series_with_one_mixed_level")
+    foil = pd.DataFrame({"load": [400., 400., 400., 350., 350., 300., 300., 300., 280., 280.],
+                         "cycles": [1e5, 1.3e5, 0.8e5, 3e5, 2.4e5, 1e6, 1e7, 1.5e6, 1e7, 1e7],
+                         "fracture": [True, True, True, True, True, True, False, True, False, False]})
+    for name in ("MaxLikeFull", "Elementary"):
+        ctx.tag("analyzer:" + name)
+        try:
+            analyze(name, foil)                               # fixed trigger first: the replay of a violation needs no history
+            first = analyze(name, B)
+            analyze(name, A)
+            second = analyze(name, B)
+        except ValueError as e:
+            if str(e).startswith("MaxLikeHood: need at least"):
+                ctx.skip("inadmissible_for_" + name)
+                continue
+            raise
+        same = all((float(first[k]) == float(second[k])) or (math.isnan(float(first[k])) and math.isnan(float(second[k]))) for k in KEYS)
+        ctx.check("same_data_same_answer_whatever_came_before", same, observed={k: float(second[k]) for k in KEYS},
+                  expected={k: float(first[k]) for k in KEYS}, detail={"analyzer": name, "mixed_levels_of_the_series_in_between": n_mixed})
+    # the caller's dictionary
+    for fp in ({}, {"TN": 3.0}, {"k_1": 7.0}):
+        mine = dict(fp)
+        try:
+            with warnings.catch_warnings():
+                warnings.simplefilter("ignore")
+                W.MaxLikeFull(A.copy()).analyze(fixed_parameters=mine)
+        except ValueError as e:
+            if str(e).startswith("MaxLikeHood: need at least"):
+                ctx.skip("inadmissible_for_MaxLikeFull")
+                continue
+            raise
+        ctx.check("fixed_parameters_of_the_caller_unchanged", mine == fp, observed=mine, expected=fp)
+
+
 def run_case(case, ctx):
     import pylife.materialdata.woehler  # noqa: F401
     rng = np.random.Generator(np.random.PCG64(case["rseed"]))
+    if case["group"] == "hist":
+        return _history(case, ctx, rng)
     norun = bool(case.get("norun"))
     df, truth = dataset(rng, case["exact"], norun)
     group = case["group"]
